@@ -28,12 +28,14 @@ func init() {
 			"reference predicate chain.PrincipalsOK (30 lines, from the property text)",
 			"commands, policies and time bounds are kept conforming in this workload so that a verdict is attributable to the principal rules",
 		},
-		Shards:      shards(8, 16),
-		Run:         runC01,
-		MinEvals:    floor(15000, 400000),
-		MinDistinct: floor(1500, 30000),
+		Shards:          shards(8, 16),
+		RaceShards:      shards(1, 2),
+		RaceIsViolation: true,
+		Run:             runC01,
+		MinEvals:        floor(15000, 400000),
+		MinDistinct:     floor(1500, 30000),
 		RequiredCells: func(tier string) []string {
-			cells := []string{"history/full-depleted-full", "deny/empty/-", "allow/audience=unset", "allow/audience=third", "hook", "long-chain"}
+			cells := []string{"purity/chain-verdicts/history", "purity/chain-verdicts/concurrent", "history/full-depleted-full", "deny/empty/-", "allow/audience=unset", "allow/audience=third", "hook", "long-chain"}
 			for _, rule := range []string{"unloadable", "link", "subject"} {
 				for _, pos := range []string{"first", "middle", "last"} {
 					cells = append(cells, "deny/"+rule+"/"+pos)
@@ -194,6 +196,9 @@ func allowed(inv *invocation.Token, ld delegation.Loader, hook bool) error {
 }
 
 func runC01(w *mon.W) {
+	if purityGate(w, c01Purity) {
+		return
+	}
 	r := w.Rng
 	total := w.Share(w.Pick(8000, 150000))
 	maxN := w.Pick(6, 8)
